@@ -127,6 +127,33 @@ def queries(rng, doc: Node, reg: Registry, docs):
             pass
     doc.content.find_diff_start(other.content)
     doc.content.find_diff_end(other.content)
+    # mark-set queries of the schema over live mark lists (results and arguments are watched; a result that
+    # aliases a shared list such as Mark.none and is then extended shows up as a change of that list)
+    sc = doc.type.schema
+    pool = [S.rand_mark(rng, sc) for _ in range(4)]
+    sets = [Mark.none]
+    for k in range(1, 4):
+        ms = Mark.none
+        for mk in rng.sample(pool, k):
+            ms = mk.add_to_set(ms)
+        sets.append(ms)
+    live = []
+    doc.descendants(lambda nd, *_: live.append(nd.marks) if nd.marks else None)
+    sets += live[:3]
+    for ms in sets:
+        reg.see(ms)
+    for nt in sc.nodes.values():
+        for ms in sets:
+            reg.see(nt.allowed_marks(ms))
+            nt.allows_marks(ms)
+    for ms in sets:
+        for mk in pool:
+            reg.see(mk.add_to_set(ms))
+            reg.see(mk.remove_from_set(ms))
+            mk.is_in_set(ms)
+            reg.see(mk.type.remove_from_set(ms))
+        reg.see(Mark.set_from(list(ms)))
+        Mark.same_set(ms, sets[0])
     j = doc.to_json()
     j["__x__"] = 1           # scribbling on produced JSON must not reach the node
     if j.get("content"):
